@@ -168,5 +168,70 @@ pub fn run(ctx: &Ctx) -> Outcome {
     if part == "bulk" || part == "all" {
         run_bulk(ctx, &mut out);
     }
+    if part == "held" || part == "all" {
+        run_held(ctx, &mut out);
+    }
     out
+}
+
+/// Readers keep every reference they obtain for the life of their guard (lookups, iterators,
+/// previous values returned by insert / remove / remove_entry / compute, TryInsertError.current)
+/// while writers replace, remove, clear, retain, resize and convert the same entries.
+pub fn run_held(ctx: &Ctx, out: &mut Outcome) {
+    use crate::freerun::*;
+    use flurry::verif as fvf;
+    install_panic_capture();
+    let target = ctx.args.u64("rounds", ctx.q(150, 5000));
+    let mut round = ctx.args.u64("first-round", 0);
+    let target = target + round;
+    while round < target && ctx.time_left() {
+        let rs = splitmix(ctx.seed ^ splitmix(ctx.shard.wrapping_mul(0xC03) ^ round) ^ 0x33);
+        let mut rng = Rng::new(rs);
+        let mut cfg = super::c01::draw(&mut rng, ctx.thorough);
+        cfg.set_facade = false;
+        cfg.holder_threads = rng.range(1, 3) as usize;
+        cfg.stable = rng.range(0, 4);
+        cfg.threads = rng.range(2, 6) as usize;
+        cfg.batch = *rng.pick(&[1usize, 1, 2, 8, 120]);
+        cfg.mix.retain = 1;
+        cfg.mix.retain_force = 1;
+        cfg.mix.clear = if cfg.stable == 0 { 1 } else { 0 };
+        cfg.mix.reserve = 2;
+        cfg.mix.insert += 10;
+        cfg.mix.remove += 6;
+        cfg.nkeys = cfg.nkeys.min(24);
+        cfg.ops = rng.range(40, 120) as usize;
+        let r = run_round(&cfg, rs);
+        round += 1;
+        out.evaluations += 1;
+        out.add("held_rounds", 1);
+        out.add("references_held_and_reread", r.held_refs);
+        out.add("instances_destroyed_while_round_was_running", r.ledger.drops_run);
+        out.add("instances_destroyed_at_teardown", r.ledger.drops_teardown);
+        let conv = r.events.iter().filter(|e| matches!(e.site, fvf::EV_TREEIFIED | fvf::EV_UNTREEIFIED | fvf::EV_TREE_SPLIT | fvf::EV_TABLE_PUBLISHED)).count() as u64;
+        out.add("resizes_and_tree_conversions_under_held_references", conv);
+        out.add(&format!("held_rounds_collector_batch_{}", cfg.batch), 1);
+        if r.held_refs > 0 && r.ledger.drops_run > 0 {
+            // non-trivial: memory was really reclaimed while references were being held
+            out.distinct.insert(r.signature);
+        }
+        let mut problem = None;
+        if !r.panics.is_empty() {
+            problem = Some(format!("panic: {}", r.panics.join("; ")));
+        } else if !r.held_failures.is_empty() {
+            problem = Some(r.held_failures.join("; "));
+        } else if !r.corrupt.is_empty() {
+            problem = Some(format!("corrupt data read through a reference: {}", r.corrupt.join("; ")));
+        } else if let Some(e) = r.ledger.errors.iter().find(|e| e.contains("guard") || e.contains("unknown id")) {
+            problem = Some(e.clone());
+        }
+        if let Some(p) = problem {
+            out.violate(
+                "c03/held",
+                format!("{p} [round {} of shard {} {}]", round - 1, ctx.shard, cfg.to_json()),
+                Json::obj().with("check", Json::s("c03")).with("part", Json::s("held")).with("seed", Json::u(ctx.seed)).with("shard", Json::u(ctx.shard)).with("round", Json::u(round - 1)).with("config", cfg.to_json()),
+            );
+            break;
+        }
+    }
 }
